@@ -11,6 +11,7 @@ import itertools
 from collections import Counter
 
 from comb_spec_searcher import CombinatorialSpecificationSearcher
+from comb_spec_searcher.class_db import ClassDB
 from comb_spec_searcher.exception import SpecificationNotFound
 from comb_spec_searcher.rule_db import RuleDBForest, RuleDBForgetStrategy
 from comb_spec_searcher.rule_db.base import RuleDB
@@ -33,6 +34,8 @@ OPTSETS = {
     "inferral": (("inferral",), "", False, False),
     "symmetry": (("symmetry",), "", False, False),
     "factory": (("factory",), "", False, False),
+    "factory2": (("factory2",), "", False, False),
+    "factory2-symmetry": (("factory2", "symmetry"), "", False, False),
     "finite": (("finite",), "", False, False),
     "finite-ev": (("finite",), "", True, False),
     "smallest": ((), "", False, True),
@@ -87,9 +90,11 @@ def run_search(shape, table, jumps=(), draws=(), prepare=None, mode="auto"):
     ctx.spec = None
     ctx.error = None
     with patched_env(ctx.clock, ctx.tape):
-        ctx.searcher = CombinatorialSpecificationSearcher(ctx.start, ctx.pack, ruledb=DBS[shape["db"]](), expand_verified=ev)
+        ctx.db = DBS[shape["db"]]()
+        ctx.classdb = ClassDB(type(ctx.start))
         if prepare is not None:
-            prepare(ctx)
+            prepare(ctx)  # may wrap methods of ctx.db / ctx.classdb before the searcher's constructor uses them
+        ctx.searcher = CombinatorialSpecificationSearcher(ctx.start, ctx.pack, ruledb=ctx.db, classdb=ctx.classdb, expand_verified=ev)
         try:
             if mode == "auto":
                 kw = {"smallest": True} if smallest else {}
@@ -194,7 +199,7 @@ def tin(t):
 def std_groups(tier, dbs=("base", "forget", "forest"), opts=None, sched=True, rng=True, S3=True, extra=None):
     gs = []
     if opts is None:
-        opts = ["plain", "iterative", "inferral", "symmetry", "factory", "finite", "finite-ev", "smallest", "k", "kk", "ku"]
+        opts = ["plain", "iterative", "inferral", "symmetry", "factory", "factory2", "finite", "finite-ev", "smallest", "k", "kk", "ku"]
         if tier == "thorough":
             opts += ["inferral-symmetry", "inferral-factory-finite", "k-inferral", "ku-factory"]
 
